@@ -630,12 +630,102 @@ func c11Arch(c *Ctx, p *Prog) {
 					written = true
 				}
 			}
+			if os.Getenv("GOOMVET_DEBUG") != "" && strings.Contains(key, "symTable") {
+				for _, a := range acc {
+					fmt.Println("C11 debug", key, shortName(a.Fn), a.How, a.Write, reach[a.Fn])
+				}
+			}
 			if !written {
 				continue
 			}
 			nGlob++
 			cons := "global " + key
 			if why, ok := c11Config[key]; ok {
+				// the two listed symbol-table variables are listed *because* every entry into the package passes a Once first:
+				// that is checked, not assumed
+				if strings.HasSuffix(key, ".symTable") || strings.HasSuffix(key, ".symTableLoadError") {
+					accFns := map[*ssa.Function]bool{}
+					for _, a := range acc {
+						accFns[a.Fn] = true
+					}
+					bad := ""
+					// unsafeAt(f): where f can reach the variable without having passed a Once.Do (in f itself, or in the callee
+					// through which it reaches it)
+					memo := map[*ssa.Function]string{}
+					var unsafeAt func(f *ssa.Function, depth int) string
+					unsafeAt = func(f *ssa.Function, depth int) string {
+						if w, ok := memo[f]; ok {
+							return w
+						}
+						memo[f] = ""
+						if f.Blocks == nil || depth > 6 {
+							return ""
+						}
+						res := ""
+						eachInstr(f, func(i ssa.Instruction) {
+							if res != "" {
+								return
+							}
+							dominated := false
+							for _, cs := range callsTo(f, "(*sync.Once).Do") {
+								if domInstr(cs, i) {
+									dominated = true
+								}
+							}
+							if dominated {
+								return
+							}
+							for _, a := range acc {
+								if a.Instr == i {
+									res = shortName(f) + " accesses it at " + p.Pos(posOf(i)) + " before any Once.Do"
+									return
+								}
+							}
+							ci, ok := i.(ssa.CallInstruction)
+							if !ok || calleeName(ci.Common()) == "(*sync.Once).Do" {
+								return
+							}
+							for _, cal := range p.modCallees(ci) {
+								touches := accFns[cal]
+								for f2 := range p.modReach(cal) {
+									if accFns[f2] {
+										touches = true
+									}
+								}
+								if !touches {
+									continue
+								}
+								if w := unsafeAt(cal, depth+1); w != "" {
+									res = shortName(f) + " reaches it at " + p.Pos(posOf(i)) + " before any Once.Do (" + w + ")"
+									return
+								}
+							}
+						})
+						memo[f] = res
+						return res
+					}
+					for _, e := range p.FuncsIn(relPkgPath(g.Pkg.Pkg.Path())) {
+						if e.Object() == nil || !e.Object().Exported() || e.Parent() != nil || e.Blocks == nil {
+							continue
+						}
+						// exported entry points that other packages of the module actually call
+						used := false
+						for _, cs := range p.callersOfAny(e) {
+							if relPkg(cs.Caller) != relPkg(e) {
+								used = true
+							}
+						}
+						if !used {
+							continue
+						}
+						if w := unsafeAt(e, 0); w != "" {
+							bad = w
+						}
+					}
+					r.Check(bad == "", "C11.R1", cons, p.Pos(g.Pos()), "listed: "+why+" — every entry point used from other packages passes a Once.Do before it can reach the variable",
+						"the lazily loaded symbol table is reached before the sync.Once that publishes it ("+bad+"): concurrent first lookups read and write it unsynchronised, a goroutine can see a half-built table and report a present symbol as missing")
+					continue
+				}
 				r.OK("C11.R1", cons, p.Pos(g.Pos()), "listed configuration: "+why)
 				continue
 			}
